@@ -233,7 +233,7 @@ Ltac unfold_fix O p HV x :=
   | Some ?e =>
       let H := constr:(@eq_refl (option expr) (Some e) <: defn p x = Some e) in
       try (rewrite (HV x e H); cbn [evalG])
-  | None => fail "no binding for" x
+  | None => idtac   (* name not bound in this program variant: nothing to unfold *)
   end.
 
 Ltac unfold_fixes O p HV l :=
